@@ -16,15 +16,33 @@ func (x *Exec) callNameOf(fn *ssa.Function, in ssa.Instruction) callName {
 	m := x.callOrd[fn]
 	if m == nil {
 		m = map[ssa.Instruction]callName{}
-		cnt := map[string]int{}
+		// ordinals follow source order (position of the call), ties and position-less calls in block order
+		type ci struct {
+			in  ssa.Instruction
+			seq int
+		}
+		var calls []ci
+		seq := 0
 		for _, blk := range fn.Blocks {
 			for _, i := range blk.Instrs {
-				if c, ok := i.(ssa.CallInstruction); ok {
-					n := calleeShort(c.Common())
-					cnt[n]++
-					m[i] = callName{n, cnt[n]}
+				if _, ok := i.(ssa.CallInstruction); ok {
+					calls = append(calls, ci{i, seq})
+					seq++
 				}
 			}
+		}
+		sort.SliceStable(calls, func(a, b int) bool {
+			pa, pb := calls[a].in.Pos(), calls[b].in.Pos()
+			if pa.IsValid() && pb.IsValid() && pa != pb {
+				return pa < pb
+			}
+			return calls[a].seq < calls[b].seq
+		})
+		cnt := map[string]int{}
+		for _, c := range calls {
+			n := calleeShort(c.in.(ssa.CallInstruction).Common())
+			cnt[n]++
+			m[c.in] = callName{n, cnt[n]}
 		}
 		x.callOrd[fn] = m
 	}
